@@ -4,7 +4,7 @@ ID=$1; SD=$2; WT=/tmp/val_$ID_$$
 LOG=$SD/validation.log
 : > $LOG
 git -C /repo worktree add -q --detach $WT HEAD || exit 2
-cd $WT
+cd $WT; export PYTHONPATH=$WT
 echo "== demo on pristine" >> $LOG
 /venv/bin/python $SD/demo.py >> $LOG 2>&1; echo "pristine_rc=$?" >> $LOG
 git apply $SD/patch.diff >> $LOG 2>&1 || { echo "PATCH DOES NOT APPLY" >> $LOG; }
